@@ -36,6 +36,7 @@ import (
 	"strconv"
 	"strings"
 	"sync/atomic"
+	"syscall"
 	"testing"
 	"time"
 
@@ -360,6 +361,11 @@ func (w *c19wWorld) boot(st c19wStep) verifsupport.Ev {
 	// a new process: everything process-wide that package main, viper and pflag keep
 	if w.cancel != nil {
 		w.cancel()
+		// the previous process is gone: its connections to the fake nodes with it (the clients close theirs
+		// asynchronously; a long batch must not run out of file descriptors)
+		for _, n := range append(append([]*c19wNode{}, w.pool...), w.mainN) {
+			n.srv.CloseClientConnections()
+		}
 	}
 	for _, e := range w.envSet {
 		os.Unsetenv(e)
@@ -864,6 +870,11 @@ func TestVerifC19Wire(t *testing.T) {
 	defer tr.Close()
 	c19wCensus(t, os.Getenv("VERIF_TRACE_OUT")+".sites.json")
 	zerolog.SetGlobalLevel(zerolog.Disabled)
+	var rl syscall.Rlimit
+	if err := syscall.Getrlimit(syscall.RLIMIT_NOFILE, &rl); err == nil && rl.Cur < rl.Max {
+		rl.Cur = rl.Max
+		_ = syscall.Setrlimit(syscall.RLIMIT_NOFILE, &rl)
+	}
 
 	w := &c19wWorld{t: t, rnd: rand.New(rand.NewSource(verifsupport.Seed())), dir: filepath.Join(t.TempDir(), "base")}
 	for i := 0; i < 12; i++ {
